@@ -637,9 +637,74 @@ impl<T: Clone> OrderType<T> {
                     )
                 } else {
                     // Partial match
+                    let new_quantity = visible_qty - incoming_quantity;
+                    // `with_reduced_quantity` leaves these three variants unchanged,
+                    // so the reduced order is built here explicitly.
+                    let updated = match self {
+                        Self::TrailingStop {
+                            id,
+                            price,
+                            side,
+                            timestamp,
+                            time_in_force,
+                            trail_amount,
+                            last_reference_price,
+                            extra_fields,
+                            ..
+                        } => Self::TrailingStop {
+                            id: *id,
+                            price: *price,
+                            quantity: new_quantity,
+                            side: *side,
+                            timestamp: *timestamp,
+                            time_in_force: *time_in_force,
+                            trail_amount: *trail_amount,
+                            last_reference_price: *last_reference_price,
+                            extra_fields: extra_fields.clone(),
+                        },
+                        Self::PeggedOrder {
+                            id,
+                            price,
+                            side,
+                            timestamp,
+                            time_in_force,
+                            reference_price_offset,
+                            reference_price_type,
+                            extra_fields,
+                            ..
+                        } => Self::PeggedOrder {
+                            id: *id,
+                            price: *price,
+                            quantity: new_quantity,
+                            side: *side,
+                            timestamp: *timestamp,
+                            time_in_force: *time_in_force,
+                            reference_price_offset: *reference_price_offset,
+                            reference_price_type: *reference_price_type,
+                            extra_fields: extra_fields.clone(),
+                        },
+                        Self::MarketToLimit {
+                            id,
+                            price,
+                            side,
+                            timestamp,
+                            time_in_force,
+                            extra_fields,
+                            ..
+                        } => Self::MarketToLimit {
+                            id: *id,
+                            price: *price,
+                            quantity: new_quantity,
+                            side: *side,
+                            timestamp: *timestamp,
+                            time_in_force: *time_in_force,
+                            extra_fields: extra_fields.clone(),
+                        },
+                        _ => self.with_reduced_quantity(new_quantity),
+                    };
                     (
                         incoming_quantity, // consumed all incoming
-                        Some(self.with_reduced_quantity(visible_qty - incoming_quantity)),
+                        Some(updated),
                         0, // not hidden reduced
                         0, // not remaining quantity
                     )
